@@ -134,6 +134,17 @@ def parseEv (tok : String) : Option Ev :=
   | 'Q' :: ds => (String.ofList ds).toNat?.map fun i => .query i (!failed)
   | _ => none
 
+/-- a log token with the connection it arrived on: the harness driver writes `O<i>` for a statement that reached a
+connection with no transaction open on it (connection 1 of the session model), everything else is on the
+transaction's connection 0 -/
+def parseEvC (tok : String) : Option (Nat × Ev) :=
+  match tok.toList with
+  | 'O' :: rest =>
+    let failed := rest.getLast? == some '!'
+    let ds := if failed then rest.dropLast else rest
+    (String.ofList ds).toNat?.map fun i => (1, Ev.exec i (!failed))
+  | _ => (parseEv tok).map fun e => (0, e)
+
 def parseLog (s : String) : Option (List Ev) :=
   if s = "-" then some [] else (s.splitOn ",").mapM parseEv
 
@@ -248,6 +259,7 @@ structure Op where
   rform : String := "-"
   endKind : String := "ok"  -- the `end=` token (coverage: which kind of value the body panicked with / returned)
   letters : String := ""
+  raw : Option RawEnd := none   -- the body ends the raw *sql.Tx itself after its statements (round 5c)
   deriving Repr
 
 def parseOp (op : List String) : Option Op :=
@@ -270,6 +282,16 @@ def parseOp (op : List String) : Option Op :=
     let oq := (match (← kv? rest "end") with
       | "goexit" => "goexit" | "panicnil1" => "nilpanic" | _ => "")
     if oq != "" && (cm.2.1 || rb.2.1) then none
+    -- raw=<c|C|r|R>: after its statements the body commits (c/C) / rolls back (r/R) the raw *sql.Tx itself; capital =
+    -- the driver refuses that call
+    let raw ← (match kv? rest "raw" with
+      | none => some none | some "-" => some none
+      | some "c" => some (some { commit := true, ok := true : RawEnd })
+      | some "C" => some (some { commit := true, ok := false : RawEnd })
+      | some "r" => some (some { commit := false, ok := true : RawEnd })
+      | some "R" => some (some { commit := false, ok := false : RawEnd })
+      | _ => none)
+    if raw.isSome && (oq != "" || cn.1.isSome) then none
     let inst ← (match kv? rest "inst" with
       | none => some 0 | some "0" => some 0 | some "1" => some 1 | _ => none)
     pure { api := api,
@@ -277,11 +299,153 @@ def parseOp (op : List String) : Option Op :=
                   rollbackPanics := rb.2.1, commitCls := cm.2.2.1, rollbackCls := rb.2.2.1 },
            b := { stmts := st, fin := en, cancelAt := cn.1, deadline := cn.2 },
            brkAllow := brk, oq := oq, inst := inst, cform := cm.2.2.2, rform := rb.2.2.2,
-           endKind := (← kv? rest "end"), letters := (← kv? rest "stmts") }
+           endKind := (← kv? rest "end"), letters := (← kv? rest "stmts"), raw := raw }
   | _ => none
 
 def isBreakerReject (r : Result) : Bool :=
   r.ret == some (Err.of .breaker)
+
+/-! ### round 5c: two transactions in flight (`par` ops) — followed with the interleaving model `Conc` -/
+
+def parsePTok (tok : String) : Option (Nat × Ev) :=
+  match tok.splitOn "@" with
+  | [a, c] => do pure ((← c.toNat?), (← parseEv a))
+  | _ => none
+
+def renderPTok (c : Nat) (e : Ev) : String := e.render ++ s!"@{c}"
+
+/-- the driver calls the model expects for the schedule, given the connection the pool handed to each Begin (in
+order); `none`: a step of the model is not enabled (the pool handed out a connection that holds an open
+transaction, or there are fewer Begins than the model makes) -/
+def parExpected (n : Bool → Nat) (endOk : Bool → Bool) (skip : Bool → Bool) (steps : List Bool) (begins : List Nat) :
+    Option (List String × Conc.St) := Id.run do
+  let mut st : Conc.St := { Conc.init with pc := fun t => if skip t then .done else .idle }
+  let mut bs := begins
+  let mut out : Array String := #[]
+  let mut ok := true
+  for t in steps do
+    let off := if t then 100 else 0
+    match st.pc t with
+    | .idle =>
+      match bs with
+      | [] => ok := false
+      | c :: rest =>
+        match Conc.step n st t c with
+        | some s' => out := out.push (renderPTok c (.begin true)); st := s'; bs := rest
+        | none => ok := false
+    | .running (k + 1) =>
+      out := out.push (renderPTok ((st.conn t).getD 0) (.exec (n t - (k + 1) + off) true))
+      st := (Conc.step n st t 0).getD st
+    | .running 0 =>
+      out := out.push (renderPTok ((st.conn t).getD 0) (if endOk t then .commit true else .rollback true))
+      st := (Conc.step n st t 0).getD st
+    | .done => pure ()
+  return if ok && bs.isEmpty then some (out.toList, st) else none
+
+/-- the events of connection `c` cut into transactions (a new one at every Begin) -/
+def segmentsOf (c : Nat) (toks : List (Nat × Ev)) : List (List Ev) :=
+  ((toks.filter (·.1 == c)).map (·.2)).foldl (fun acc e =>
+    match e, acc.reverse with
+    | .begin _, _ => acc ++ [[e]]
+    | _, [] => [[e]]
+    | _, last :: restRev => restRev.reverse ++ [last ++ [e]]) []
+
+def stmtIdx : Ev → Option Nat
+  | .exec i _ => some i
+  | .query i _ => some i
+  | _ => none
+
+/-- the property on what the driver saw of two calls in flight: connection discipline of the pool / session
+(`opens`), and every clause of the property on each call's own transaction -/
+def parMonitor (toks : List (Nat × Ev)) (endOk : Bool → Bool) (rets : Bool → Option Err) (runs : Bool → Nat)
+    (skip : Bool → Bool) : List String := Id.run do
+  let mut bad : Array String := #[]
+  let mut opens : List Nat := []
+  for (c, e) in toks do
+    match e with
+    | .begin true => if opens.contains c then bad := bad.push "two-open-transactions-on-one-connection" else opens := c :: opens
+    | .commit _ | .rollback _ =>
+      if opens.contains c then opens := opens.erase c else bad := bad.push "ends-exactly-once"
+    | .exec _ _ | .query _ _ => if !opens.contains c then bad := bad.push "statement-outside-transaction"
+    | _ => pure ()
+  for t in [false, true] do
+    if skip t then continue
+    let mine := fun (e : Ev) => match stmtIdx e with | some i => (decide (i ≥ 100)) == t | none => false
+    let conns := ((toks.filter fun x => mine x.2).map (·.1)).eraseDups
+    match conns with
+    | [c] =>
+      let segs := (segmentsOf c toks).filter fun sg => sg.any mine
+      match segs with
+      | [sg] =>
+        if sg.any (fun e => (stmtIdx e).isSome && !mine e) then bad := bad.push "statement-outside-transaction"
+        let norm := sg.map fun e => match e with
+          | .exec i ok => Ev.exec (i % 100) ok | .query i ok => Ev.query (i % 100) ok | x => x
+        let r : Result := { log := norm, runs := runs t, ret := rets t,
+                            body := if endOk t then .nil else .err (Err.of (.body .plain)) }
+        for cl in Spec.violated r do bad := bad.push (s!"call{if t then 1 else 0}:" ++ cl)
+      | _ => bad := bad.push "statement-outside-transaction"
+    | _ => bad := bad.push "statement-outside-transaction"
+  return bad.toList
+
+def runPar (r : Report) (sidx lidx : Nat) (op obs : List String) : Report := Id.run do
+  let impl := joinSp obs
+  let mut r := { r with ops := r.ops + 1 }
+  let parsed : Option (Nat × Nat × Bool × Bool × List Bool) := do
+    let n0 ← (← kv? op "n0").toNat?
+    let n1 ← (← kv? op "n1").toNat?
+    let pe := fun (x : String) => match x with | "ok" => some true | "err" => some false | _ => none
+    let e0 ← pe (← kv? op "end0")
+    let e1 ← pe (← kv? op "end1")
+    let sc ← kv? op "sched"
+    let sched ← (if sc == "-" then some [] else sc.toList.mapM fun c => if c == '0' then some false else if c == '1' then some true else none)
+    if n0 == 0 || n1 == 0 || n0 > 50 || n1 > 50 then none
+    pure (n0, n1, e0, e1, sched)
+  match parsed with
+  | none => return r.mismatch sidx lidx "bad-op" (joinSp op)
+  | some (n0, n1, e0, e1, sched) =>
+    let n := fun (t : Bool) => if t then n1 else n0
+    let endOk := fun (t : Bool) => if t then e1 else e0
+    let obsP : Option (List (Nat × Ev) × Option Err × Option Err × Nat × Nat) := do
+      let lg ← kv? obs "log"
+      let toks ← (if lg == "-" then some [] else (lg.splitOn ",").mapM parsePTok)
+      pure (toks, ← parseRet (← kv? obs "ret0"), ← parseRet (← kv? obs "ret1"), ← (← kv? obs "runs0").toNat?,
+            ← (← kv? obs "runs1").toNat?)
+    match obsP with
+    | none =>
+      r := r.mismatch sidx lidx "unparsable-observation" impl
+      return r.violation sidx lidx s!"clauses=[no-orderly-return] impl=[{impl}] op=[{joinSp op}]"
+    | some (toks, r0, r1, runs0, runs1) =>
+      let rets := fun (t : Bool) => if t then r1 else r0
+      let runs := fun (t : Bool) => if t then runs1 else runs0
+      -- a real breaker that rejects a call is an environment input: that call made no step
+      let skip := fun (t : Bool) => rets t == some (Err.of .breaker) && runs t == 0
+      if skip false || skip true then r := r.addCover "par-breaker-real-reject"
+      let steps := sched ++ List.replicate (n0 + 2) false ++ List.replicate (n1 + 2) true
+      let begins := (toks.filter fun x => x.2 == .begin true).map (·.1)
+      let wantRet := fun (t : Bool) => if skip t then rets t else if endOk t then none else some (Err.of (.body .plain))
+      match parExpected n endOk skip steps begins with
+      | none => r := r.mismatch sidx lidx "every step of the interleaving model enabled" impl
+      | some (want, fin) =>
+        let wantLog := if want.isEmpty then "-" else ",".intercalate want
+        let wantObs := s!"log={wantLog} ret0={renderRet (wantRet false)} runs0={if skip false then 0 else 1} " ++
+          s!"ret1={renderRet (wantRet true)} runs1={if skip true then 0 else 1}"
+        let implN := s!"log={kvStr obs "log" "?"} ret0={kvStr obs "ret0" "?"} runs0={kvStr obs "runs0" "?"} " ++
+          s!"ret1={kvStr obs "ret1" "?"} runs1={kvStr obs "runs1" "?"}"
+        if wantObs != implN then r := r.mismatch sidx lidx wantObs impl
+        if [false, true].any (fun t => !skip t && (fin.begins t != 1 || fin.ends t != 1 || fin.stray t != 0)) then
+          r := r.mismatch sidx lidx "model: each call begins and ends one transaction" impl
+      let bad := parMonitor toks endOk rets runs skip
+      if !bad.isEmpty then
+        r := r.violation sidx lidx s!"clauses=[{",".intercalate bad.eraseDups}] impl=[{impl}] op=[{joinSp op}]"
+      r := r.addCover "par-two-transactions-in-flight"
+      let distinct := (toks.map (·.1)).eraseDups.length
+      r := r.addCover s!"par-connections-{distinct}"
+      -- did the two transactions overlap in time (second Begin before the first end)?
+      let firstEnd := toks.findIdx? fun x => Spec.isEnd x.2
+      let secondBegin := (toks.zipIdx.filter fun x => x.1.2 == .begin true).map (·.2) |>.getD 1 0
+      if begins.length == 2 && (firstEnd.getD 0) > secondBegin then r := r.addCover "par-overlapping-transactions"
+      r := r.addCover s!"par-ends-{if e0 then "commit" else "rollback"}-{if e1 then "commit" else "rollback"}"
+      return r
 
 def runSection (r : Report) (s : Section) : Report := Id.run do
   let via := kvStr s.cfg "via" "?"
@@ -294,6 +458,9 @@ def runSection (r : Report) (s : Section) : Report := Id.run do
   let ua0 := (parseUA accept).getD {}
   let ua1 := (parseUA accept1).getD {}
   for l in s.lines do
+    if l.op.head? == some "par" then
+      r := runPar r s.idx l.idx l.op.tail l.obs
+      continue
     match parseOp l.op with
     | none => r := r.mismatch s.idx l.idx "bad-op" (joinSp l.op)
     | some op =>
@@ -356,7 +523,10 @@ def runSection (r : Report) (s : Section) : Report := Id.run do
         continue
       -- a statement of the body that reached a connection with no transaction open on it (the harness driver logs
       -- O<i>) did not run inside the transaction
-      if ((kvStr l.obs "log" "").splitOn ",").any (fun t => t.startsWith "O") then
+      -- (evaluated with the model's `outsideTx`, which `Props.statements_inside_the_transaction` proves empty)
+      if (match ((kvStr l.obs "log" "").splitOn ",").mapM parseEvC with
+          | some tagged => !(outsideTx none tagged).isEmpty
+          | none => ((kvStr l.obs "log" "").splitOn ",").any (fun t => t.startsWith "O")) then
         r := r.mismatch s.idx l.idx "statements-inside-the-transaction" impl
         r := r.violation s.idx l.idx s!"clauses=[statement-outside-transaction] impl=[{impl}] op=[{joinSp l.op}]"
         continue
@@ -373,12 +543,15 @@ def runSection (r : Report) (s : Section) : Report := Id.run do
         let env : Env := { ctxDone := ctxDone, brkAllow := op.brkAllow && !realReject,
                            connOk := via != "namedbad", userAccept := ua,
                            ctxDead := op.api == "ctxdead" }
-        let m := if via == "onconn" then transactOnConn op.f op.b else transactCtx env op.f op.b
+        let bx : BodyX := { base := op.b, raw := op.raw }
+        let m := if op.raw.isSome then
+                   (if via == "onconn" then transactOnConnX op.f bx else transactCtxX env op.f bx)
+                 else if via == "onconn" then transactOnConn op.f op.b else transactCtx env op.f op.b
         -- what the request handed to the breaker returned (`core=`; `?` when the harness cannot see it, `-` when
         -- it did not run / did not return)
         let coreObs := kvStr l.obs "core" "?"
         let coreWant := if via == "onconn" || !(!env.ctxDone && env.brkAllow) || m.escaped then "-"
-                        else renderRet (transactFn env.connOk op.f op.b).ret
+                        else renderRet (transactFnX env.connOk op.f bx).ret
         let implCore := if coreObs == "?" then impl else impl ++ " core=" ++ coreObs
         let implMain := joinSp (l.obs.filter fun t => !t.startsWith "core=" && !t.startsWith "cv=")
         -- the context the body is handed: the caller's (TransactCtx / transactOnConn: it carries the caller's
@@ -393,7 +566,8 @@ def runSection (r : Report) (s : Section) : Report := Id.run do
         let _ := implCore
         -- the wrapper hands the caller exactly what the request (transact) returned to the breaker
         let coreBad := coreObs != "?" && coreObs != "-" && !obs.escaped && coreObs != renderRet obs.ret
-        let bad := Spec.violated obs ++
+        -- a body that ends the raw Tx itself takes the choice of the end away from go-zero: the go-zero-side clauses
+        let bad := (if op.raw.isSome then Spec.violatedX obs else Spec.violated obs) ++
           (if markSeen && !Spec.breakerTold env.userAccept obs then ["breaker-told"] else []) ++
           (if coreBad then ["wrapper-returns-core-error"] else []) ++
           (if cvObs == "0" then ["body-gets-callers-context"] else [])
@@ -425,6 +599,13 @@ def runSection (r : Report) (s : Section) : Report := Id.run do
         if m.runs == 1 && op.letters.toList.any (fun c => c == 'b' || c == 'B') &&
             (match m.body with | .err e => (match e.is with | [.stmt _] => true | _ => false) | _ => false) then
           r := r.addCover "body-returned-ErrBadConn-no-second-transaction"
+        match op.raw with
+        | none => pure ()
+        | some re =>
+          if bx.reaches op.f && m.runs == 1 then
+            r := r.addCover (s!"raw-end-{if re.commit then "commit" else "rollback"}-{if re.ok then "ok" else "refused"}-body-" ++
+              (match m.body with | .nil => "nil-ErrTxDone-returned" | .panic => "panic" | .err _ => "err" | .notRun => "notrun"))
+          else r := r.addCover "raw-end-not-reached"
         if via == "cached" then r := r.addCover ("cached-constructor-" ++ kvStr s.cfg "cons" "cache")
         if via == "cached" && kvStr s.cfg "reuse" "0" == "1" then r := r.addCover "cached-conn-reused-over-the-section"
         -- round 4: the acceptable-error classes at every place an error can come from
